@@ -13,7 +13,7 @@ def run(run):
     run.replay(b, cases2, label="badinc")
     run.negative_control_replay(b, cases, corrupt_first(lambda e: e["out"]["kind"] == "range", lambda e: e["out"].__setitem__("kind", "ok")), limit=5000)
     run.exhaustive = True
-    run.cov["rule"] = ("one case per cell of the full finite matrix {14 operations} x {largestUnit: 10 units, auto, absent} x {smallestUnit: 10 units, absent} x {23 increments incl. 1, divisors, "
+    run.cov["rule"] = ("one case per cell of the full finite matrix {16 operations incl. ZonedDateTime.until / since, these also with the argument in another time zone} x {largestUnit: 10 units, auto, absent} x {smallestUnit: 10 units, absent} x {23 increments incl. 1, divisors, "
                       "non-divisors, maxima, day lengths, 1e9; plus 0 and 1e9+1} x {mode absent and all 9 modes}; accepted cells compare the *result* on separating operands "
                       "wherever the value-level specs decide it, so the resolved defaults (auto largest unit, trunc for differences, halfExpand for round, since negates) are observed")
     run.cov["distinct_nontrivial"] = run.cov["evaluations"]
